@@ -587,6 +587,11 @@ theorem invC3_step (c0 : Cfg) (hne : c0.incoming ≠ [] ∨ c0.outgoing ≠ []) 
     (hL : InvL s) (hL' : InvL s') (hA : InvA s) (hA' : InvA s')
     (hB : InvB c0 s) (hB' : InvB c0 s') (hC : InvC c0 s) (g : Grow s s') : InvC3 c0 s' := by
   cases e with
+  | read r =>
+    simp only [applyEvent, ok] at h
+    split at h
+    · cases h; exact ⟨hC.c3.cq, hC.c3.cm, hC.c3.cmi, hC.c3.cmd, hC.c3.capp, hC.c3.chb, hC.c3.csn, hC.c3.ccl⟩
+    · cases h
   | bump i t => exact invC3_bump c0 s s' i t h hC
   | campaign i => exact invC3_campaign c0 s s' i h hC
   | grant i c => exact invC3_grant c0 s s' i c h hC
